@@ -26,6 +26,16 @@ theorem fetch_returns_own (s : St) (h : Reachable .atomic s) (w : Wid) (r : Rid)
 theorem ids_unique (s : St) (h : Reachable .atomic s) : (s.pending.map (·.1)).Nodup ∧ ∀ p ∈ s.pending, p.1 < s.next :=
   ⟨(inv_reachable h).nodup, (inv_reachable h).lt⟩
 
+/-- The safety theorems above are not vacuous for lack of behaviour: in *every* state (however many other requests are
+    pending, fetched, uploaded or delivered, and whatever this worker fetched before) a client without a pending request
+    can be served — arrive, fetch under the new ID, upload, deliver all are enabled in turn and the client receives
+    the response produced from its own request. -/
+theorem fresh_client_can_be_served (s : St) (c : Cid) (w : Wid)
+    (hp : c ∉ s.pending.map (·.2)) (hd : c ∉ s.delivered.map (·.1)) :
+    ∃ s', run .atomic s [.arrive c, .fetch w s.next, .upload w, .deliver s.next] = some s' ∧
+      s'.delivered = (c, c) :: s.delivered := by
+  simp [run, step, hp, hd, lookup]
+
 /-- With the unsynchronised generator two concurrent clients can draw the same ID; the
     later registration overwrites the earlier one and client 2 receives the response
     produced for client 1's request (the defect found in the original code). -/
